@@ -311,6 +311,26 @@ def run_case(case, acc):
                 for kw in ({'version': 1, 'encoding': 'utf-8'}, {'symbol_count': 3, 'encoding': 'utf-8'}, {'version': 2, 'encoding': 'shift_jis'},
                            {'symbol_count': 2, 'version': 5}, {'version': 1, 'mask': 3}, {'symbol_count': 4, 'error': 'H', 'boost_error': False}):
                     check_seq(content_of(fam, n), kw, acc, fam)
+        # a message given as parts of two or more modes: refused (the function says so) or a sequence that reassembles to the
+        # concatenation - never a sequence encoded in the mode of the first part only
+        for parts in (['123', 'abc'], ['12', 'AB'], ['AB', '12', 'cd'], ['1', 'a'] * 8, ['\u70b9\u8317', '12'], ['12', 'AB', '34', 'CD'] * 6):
+            for kw in ({'symbol_count': 2}, {'symbol_count': 3, 'error': 'H'}, {'version': 1}, {'version': 1, 'error': 'H'}, {'symbol_count': 1}):
+                case2 = ('misc',)
+                try:
+                    seq = segno.make_sequence(parts, **kw)
+                except ValueError:
+                    acc.eval(('multimode', tuple(parts), tuple(sorted(kw))), nontrivial=False, outcome='refused')
+                    continue
+                except Exception as e:
+                    acc.violation('exception/%s' % C.exc_name(e), 'make_sequence(%r, **%r) raised %s: %s' % (parts, kw, C.exc_name(e), str(e)[:60]), case2)
+                    continue
+                reps = [C.read(q) for q in seq]
+                want = ''.join(parts).encode('shift_jis' if any(ord(ch) > 255 for p_ in parts for ch in p_) else 'latin-1')
+                got = b''.join(r.payload or b'' for r in reps)
+                bad = [p_ for r in reps for p_ in r.problems if C.classify_problem(p_) != 'remainder-bits']
+                acc.eval(('multimode', tuple(parts), tuple(sorted(kw))), nontrivial=True, outcome=(got == want and not bad), state=('multimode', len(parts), tuple(sorted(kw))))
+                if bad or got != want:
+                    acc.violation('multi-mode-parts', 'make_sequence(%r, **%r) returned %d symbols that reassemble to %r (%s)' % (parts, kw, len(seq), got[:30], bad[:1]), case2)
     elif kind == 'hetero':
         sc = case[1]
         for a, b in (('7', 'a'), ('a', '7'), ('A', 'b'), ('7', 'A'), ('K', '7'), ('x', 'Z')):
